@@ -43,17 +43,26 @@ package shovel
 // C01/C03: a successful load returns blocks start..start+k-1 (1 <= k <= limit) in
 // order, hash-linked, and its first block extends the recorded position.
 //@ spec opaque linkedAt(bs []eth.Block, j int) bool = len(bs[j].Header.Parent) == 32 && len(bs[j-1].Header.Hash) == 32 ==> hashof(bs[j].Header.Parent) == hashof(bs[j-1].Header.Hash)
-//@ func (*Task).load props=C01,C03 ghost=none
+// The partition fetch of load (the function literal handed to errgroup.Go):
+// on success exactly the n blocks m..m+n-1 are appended to the merged result,
+// what was merged before stays in place; on failure nothing is merged.
+//@ func (*Task).load$1 props=C01,C03,C06 ghost=none
+//@   requires t != nil && n <= 0x100000 && m < 0x7fffffff80000000
+//@   ensures [merged] result == nil ==> len(blocks) == old(len(blocks)) + int(n) && (forall k int :: 0 <= k && k < old(len(blocks)) ==> blocks[k] == old(blocks[k])) && (forall j int :: old(len(blocks)) <= j && j < len(blocks) ==> uint64(blocks[j].Header.Number) == m + uint64(j - old(len(blocks))))
+//@   ensures [failed] result != nil ==> blocks == old(blocks)
+//@   ensures [frame] m == old(m) && n == old(n) && t == old(t)
+//@ func (*Task).load props=C01,C03,C06 ghost=none
 //@   requires t.batchSize >= 1 && t.batchSize < 0x100000 && t.concurrency >= 1 && t.concurrency < 0x100000
 //@   requires 1 <= limit && limit <= uint64(t.batchSize) && start < 0x7fffffff00000000
 //@   ensures [count] result1 == nil ==> 1 <= len(result0) && uint64(len(result0)) <= limit
 //@   ensures [numbers] result1 == nil ==> (forall j int :: 0 <= j && j < len(result0) ==> uint64(result0[j].Header.Number) == start + uint64(j))
 //@   ensures [parent] result1 == nil && len(result0[0].Header.Parent) == 32 ==> hashof(result0[0].Header.Parent) == hashof(localHash)
 //@   ensures [linked] result1 == nil ==> (forall j int :: 1 <= j && j < len(result0) ==> linkedAt(result0, j))
+//@   atcall Go assert [partition-start] egerr(eg) == nil ==> m == start + uint64(len(blocks)) && n >= 1 && uint64(len(blocks)) + n <= limit
 //@   loop#0 invariant 0 <= i && i <= t.concurrency
 //@   loop#0 invariant egerr(eg) == nil ==> uint64(len(blocks)) == min(limit, uint64(i*part))
-//@   loop#0 invariant egerr(eg) == nil ==> (forall j int :: 0 <= j && j < len(blocks) ==> start <= uint64(blocks[j].Header.Number) && uint64(blocks[j].Header.Number) < start + uint64(len(blocks)))
-//@   loop#0 invariant egerr(eg) == nil ==> (forall j int, k int :: 0 <= j && j < k && k < len(blocks) ==> uint64(blocks[j].Header.Number) != uint64(blocks[k].Header.Number))
+//@   loop#0 invariant 0 <= i*part && i*part < 0x10000000000 && 1 <= part && part < 0x100000
+//@   loop#0 invariant egerr(eg) == nil ==> (forall j int :: 0 <= j && j < len(blocks) ==> uint64(blocks[j].Header.Number) == start + uint64(j))
 //@   loop#1 invariant 1 <= i && i <= len(blocks)
 //@   loop#1 invariant forall k int :: 1 <= k && k < i ==> linkedAt(blocks, k)
 //@   after slices.SortFunc assume len(blocks) == old(len(blocks))
